@@ -56,10 +56,12 @@ def gen(rng, tier):
             e = enc(v)
             tail = [rng.randrange(256) for _ in range(rng.randrange(3))]
             yield 'vi.dec %d %s 0' % (kind, hexs(e + tail))
+            yield 'vi.dec %d %s 0 0' % (kind, hexs(e + tail))   # byte_buffer_space style: used = 0
             yield 'vi.src %d %s %d' % (kind, hexs(e + tail), rng.randrange(2))
             # every truncation of the valid encoding: the buffer ends inside the varint
             for cut in range(len(e)):
                 yield 'vi.dec %d %s 0' % (kind, hexs(e[:cut]))
+                if cut: yield 'vi.dec %d %s 0 %d' % (kind, hexs(e[:cut]), rng.randrange(cut + 1))
                 yield 'vi.src %d %s %d' % (kind, hexs(e[:cut]), rng.randrange(2))
             if rng.random() < 0.3:
                 pre = [rng.randrange(256) for _ in range(rng.randrange(1, 4))]
